@@ -112,3 +112,9 @@ func init() {
 		Thorough: tierCfg{Shards: 16, Checks: 5000, EnumShards: 16, Procs: mixedProcs, TimeoutS: 5400, ReplayRepeat: 100,
 			Fuzz: []fuzzCfg{{"FuzzServeFrames", 180}, {"FuzzClientFrames", 180}}}}
 }
+
+func init() {
+	specs["C09"] = propSpec{Level: "exploration",
+		Quick:    tierCfg{Shards: 16, Checks: 200, Procs: mixedProcs, TimeoutS: 1200, ReplayRepeat: 20},
+		Thorough: tierCfg{Shards: 16, Checks: 5000, Procs: mixedProcs, TimeoutS: 7200, ReplayRepeat: 100}}
+}
